@@ -11,7 +11,8 @@ ID = "C04"
 RULE = ("cases = (numerator taps, denominator taps with a[0] != 0, input of exact rationals, "
         "zero value, memory kind + values, construction route) drawn by Hypothesis with "
         "forced coefficient classes (0, +1, -1, other ints, arbitrary finite floats, dyadic "
-        "and non-dyadic Fractions, sparse high delays); oracle = diffeq_ref, the difference "
+        "and non-dyadic Fractions, sparse high delays, numerator equal to / twice the denominator by value, "
+        "feedback orders up to 900 (thorough 2000) with explicit memories); oracle = diffeq_ref, the difference "
         "equation evaluated in Fractions, compared exactly (tolerance only when a non-dyadic "
         "Fraction coefficient forces the code into float arithmetic); non-trivial = order >= 1, "
         "len(x) > order and some coefficient outside {0,1}; distinct = distinct case hash")
@@ -33,6 +34,10 @@ frac_coef = st.one_of(st.sampled_from([F(1, 3), F(-2, 3), F(5, 7), F(-1, 9), F(7
 ROUTES = ["list", "dict", "zexpr", "LinearFilter", "LinearFilter_dict"]
 MEMS = ["none", "list", "tuple", "gen", "call", "long", "stream"]
 ZEROS = [0, 0.0, Q(0), Q(2), Q(1, 3), Q(-5, 2)]
+# the numerator may be *related* to the denominator: the same values (same objects, or the
+# same numbers spelled in another type), or a multiple of them. H(z) is then a constant, but the
+# difference equation still has its feedback part and its memory
+TIES = ["none"] * 5 + ["b=a", "b=a respelled", "b=2a"]
 
 
 def taps(coef, maxlen, sparse=True):
@@ -48,7 +53,7 @@ def strat_exact(tier):
     b=taps(exact_coef, 6), a0=exact_a0, a=taps(exact_coef, 4),
     x=st.one_of(st.lists(qv, max_size=12), st.lists(qv, min_size=5, max_size=12)), zero=st.sampled_from(ZEROS),
     mem=st.sampled_from(MEMS), memv=st.lists(qv, min_size=10, max_size=10),
-    route=st.sampled_from(ROUTES)))
+    route=st.sampled_from(ROUTES), tie=st.sampled_from(TIES)))
 
 
 def build(b, a, route):
@@ -96,10 +101,30 @@ def dyadic(c):
   return f.denominator & (f.denominator - 1) == 0
 
 
+def respell(v):
+  """The same number in another type, when that is exact."""
+  if isinstance(v, bool):
+    return v
+  if isinstance(v, int):
+    return float(v) if abs(v) < 2 ** 53 else v
+  if isinstance(v, float):
+    return int(v) if v.is_integer() else F(v)
+  if isinstance(v, F):
+    return float(v) if dyadic(v) else v
+  return v
+
+
 def prepare(c):
   b = {k: v for k, v in c["b"]}
   a = {k + 1: v for k, v in c["a"]}
   a[0] = c["a0"]
+  tie = c.get("tie", "none")
+  if tie == "b=a":
+    b = dict(a)
+  elif tie == "b=a respelled":
+    b = {k: respell(v) for k, v in a.items()}
+  elif tie == "b=2a":
+    b = {k: 2 * v for k, v in a.items()}
   nzb = {k: v for k, v in b.items() if v != 0}
   nza = {k: v for k, v in a.items() if v != 0}
   return b, a, nzb, nza
@@ -177,6 +202,12 @@ def run_exact(c, tolerant=False):
     labels.append("memory used")
   if inexact:
     labels.append("float-evaluated Fraction")
+  if lm >= 1 and nzb == nza:
+    labels.append("b equals a by value, order >= 1")
+    if eff is not None and any(v != zero for v in eff):
+      labels.append("b equals a by value, order >= 1, memory differs from the zero history")
+  elif lm >= 1 and nzb == {k: 2 * v for k, v in nza.items()}:
+    labels.append("b = 2a, order >= 1")
   nt = lm >= 1 and len(x) > lm and any(v not in (0, 1) for v in list(nzb.values()) + list(nza.values()))
   return {"nontrivial": nt, "labels": labels}
 
@@ -187,7 +218,7 @@ def strat_frac(tier):
     b=taps(coef, 5, sparse=False), a0=st.one_of(frac_coef, frac_coef, exact_a0), a=taps(coef, 3, sparse=False),
     x=st.one_of(st.lists(qv, max_size=10), st.lists(qv, min_size=4, max_size=10)), zero=st.sampled_from([0, 0.0, Q(0), Q(1, 3)]),
     mem=st.sampled_from(MEMS), memv=st.lists(qv, min_size=10, max_size=10),
-    route=st.sampled_from(ROUTES)))
+    route=st.sampled_from(ROUTES), tie=st.sampled_from(TIES)))
 
 
 def run_frac(c):
@@ -369,6 +400,79 @@ def run_long(c):
                                          ">128 terms" if terms > 128 else "<=128 terms"]}
 
 
+# ------------------------------------------------------------------ long feedback parts
+LF_MEMS = ["list", "gen", "call", "long", "tuple", "stream", "none"]
+LF_DENSE_MAX = 300        # terms of a contiguous block (the generated sum must still compile)
+
+
+def strat_long_feedback(tier):
+  top = 900 if tier == "quick" else 2000
+  fcoef = st.sampled_from([1, -1, 2, -3, 0.5, -0.25, 3])
+  return st.fixed_dictionaries(dict(
+    order=st.integers(40, top),
+    shape=st.sampled_from(["comb", "sparse", "sparse", "dense"]),
+    last=fcoef,                                   # the coefficient at delay == order
+    taps=st.lists(st.tuples(st.integers(0, 999), fcoef), min_size=1, max_size=4),
+    pattern=st.lists(st.integers(-2, 2), min_size=3, max_size=7),
+    a0=st.sampled_from([1, 1, -1, 2, 0.5]),
+    b=st.lists(st.integers(-3, 3), min_size=1, max_size=3),
+    xlen=st.integers(1, 40), beyond=st.booleans(), x0=st.lists(qv, min_size=3, max_size=3),
+    mem=st.sampled_from(LF_MEMS), m0=st.lists(qv, min_size=5, max_size=5), mslope=qv,
+    zero=st.sampled_from([Q(0), Q(2, 3), 0.0]),
+    route=st.sampled_from(["dict", "list", "zexpr", "LinearFilter_dict"])))
+
+
+def run_long_feedback(c):
+  """y[-k] is the k-th memory item and y[n-k] the k-th last output, however long the feedback part is."""
+  order, shape = c["order"], c["shape"]
+  a = {order: c["last"]}
+  if shape == "sparse":
+    for pos, v in c["taps"]:
+      a.setdefault(max(1, order * pos // 1000), v)
+  elif shape == "dense":
+    pat = c["pattern"]
+    for k in range(max(1, order - LF_DENSE_MAX + 1), order):
+      v = pat[k % len(pat)]
+      if v:
+        a[k] = v
+  a[0] = c["a0"]
+  b = {k: v for k, v in enumerate(c["b"]) if v != 0}
+  route = c["route"]
+  if route == "zexpr" and len(a) > 8:
+    route = "dict"
+  # dense blocks feed every output back into the next one: keep those runs short
+  n = c["xlen"] + (order if c["beyond"] and shape != "dense" else 0)
+  x = [c["x0"][i % 3] + (i % 5) for i in range(n)]
+  zero = c["zero"]
+  memv = [c["m0"][k % 5] + k * c["mslope"] for k in range(order + 3)]
+  seen = []
+  mem, eff = memory(c["mem"], memv, order, zero, seen)
+  filt = build(b if b else {0: 0}, a, route)
+  got = list(filt(iter(x), memory=mem, zero=zero))
+  if c["mem"] == "call" and seen != [order]:
+    raise Violation("callable memory asked for sizes %r, filter order is %d" % (seen, order))
+  exp = diffeq_ref(b, a, x, zero, eff)
+  if len(got) != len(x):
+    raise Violation("%d outputs for %d inputs (feedback order %d)" % (len(got), len(x), order))
+  for i, (g, e) in enumerate(zip(got, exp)):
+    if not (g == e):
+      fb = sorted(k for k in a if k)
+      raise Violation("feedback order %d (%d feedback terms at delays %r%s, a0=%r, b=%r, route %s), memory kind %s "
+                      "with y[-k] = %r..., zero=%r: y[%d] = %r, expected %r"
+                      % (order, len(fb), fb[:6], "..." if len(fb) > 6 else "", a[0], b, route, c["mem"],
+                         None if eff is None else eff[:4], zero, i, g, e))
+  labels = ["shape:" + shape, "mem:" + c["mem"], "route:" + route,
+            "order <= 128" if order <= 128 else "order 129..512" if order <= 512 else "order > 512"]
+  given = eff is not None and eff != eff[::-1]
+  if given:
+    labels.append("non-palindromic memory given")
+    if order > 256:
+      labels.append("non-palindromic memory given, order > 256")
+  if n > order:
+    labels.append("input longer than the order")
+  return {"nontrivial": given and n >= 1, "labels": labels}
+
+
 # ------------------------------------------------------------------ complex coefficients
 CPLX = [1j, -1j, 0.6 + 0.8j, -0.6 + 0.8j, 0.8 - 0.6j, 2j, 1 + 1j, 0.5j, -1 + 0j, 1 + 0j, 0.25 - 0.5j]
 
@@ -430,16 +534,23 @@ def run_complex(c):
 CLAUSES = [
   Clause("diffeq_exact", strat_exact, run_exact, quick=3500, thorough=80000,
          floors={"special-cased +-1 coefficient": .2, "sparse high delay": .05, "memory used": .2,
-                 "a0=-1": .02, "a0 float": .1, "a0 Fraction": .05},
+                 "a0=-1": .02, "a0 float": .1, "a0 Fraction": .05,
+                 "b equals a by value, order >= 1, memory differs from the zero history": .04,
+                 "b = 2a, order >= 1": .02},
          doc="exact agreement with the difference equation for int / float / dyadic-Fraction coefficients"),
   Clause("diffeq_fraction", strat_frac, run_frac, quick=1200, thorough=20000,
-         floors={"float-evaluated Fraction": .4, "a0 non-dyadic Fraction": .1},
+         floors={"float-evaluated Fraction": .4, "a0 non-dyadic Fraction": .1,
+                 "b equals a by value, order >= 1, memory differs from the zero history": .025},
          doc="non-dyadic Fraction coefficients (code evaluates n/d in double): agreement within 1e-12 x magnitude"),
   Clause("exact_twins", strat_twins, run_twins, quick=800, thorough=15000,
          floors={"float twin first": .2, "big ints": .1},
          doc="integer coefficients on plain Fractions / ints beyond 2**53 stay exact, also right after a value-equal float-spelled filter ran"),
   Clause("long_filters", strat_long, run_long, quick=160, thorough=2000, floors={">64 terms": .5},
          doc="filters with 60..140 (thorough ..300) taps: every term of a long generated sum contributes"),
+  Clause("long_feedback", strat_long_feedback, run_long_feedback, quick=200, thorough=2500,
+         floors={"non-palindromic memory given": .25, "non-palindromic memory given, order > 256": .15,
+                 "order > 512": .08, "shape:dense": .04, "input longer than the order": .08},
+         doc="feedback orders 40..900 (thorough ..2000): comb, sparse and dense feedback parts with explicit memories of every kind"),
   Clause("complex_coefficients", strat_complex, run_complex, quick=800, thorough=15000,
          floors={"unit-modulus complex feedback": .1, "complex a0": .1},
          doc="complex coefficients (incl. modulus exactly 1) against the difference equation in complex arithmetic, tol 1e-9 x magnitude"),
